@@ -75,3 +75,7 @@ let finish ~cases ~steps ~nontrivial =
   Printf.printf "STAT cases=%d steps=%d nontrivial=%d distinct=%d mismatches=%d predfails=%d predfails_kf=%d\n"
     cases steps nontrivial (Hashtbl.length distinct) !mismatches !predfails !predfails_kf;
   Hashtbl.iter (fun k v -> Printf.printf "HIST %s %d\n" k v) hist
+
+(* ---------------- registry: each cXX.ml registers its entry point ---------------- *)
+let registry : (string, string -> unit) Hashtbl.t = Hashtbl.create 32
+let register (name : string) (f : string -> unit) = Hashtbl.replace registry name f
